@@ -16,7 +16,7 @@ from ..core.shrink import ShrinkBudget
 META: Dict[str, Any] = {
     "id": "C14",
     "level": "exploration",
-    "pools": [{"backend": "c"}, {"backend": "py"}],
+    "pools": [{"backend": "c"}, {"backend": "py"}, {"backend": "c", "optimize": 1}],
     "tiers": {
         "quick": {"runs": 60000, "chunk": 250, "wall": 60, "chunk_wall": 300},
         "thorough": {"runs": 600000, "chunk": 300, "wall": 900, "chunk_wall": 600},
@@ -60,7 +60,7 @@ DIDS = [0xF190, 0xF191, 0xF1A0, 0x0101]
 
 
 def pool_of(rs: int, index: int) -> int:
-    return h64("pool", rs) % 2
+    return h64("pool", rs) % 3
 
 
 # ------------------------------------------------------------------ model-side encoder
